@@ -1,0 +1,18 @@
+//go:build verif
+
+package ecs
+
+// Contracts for cache.go (registered filters).
+
+//@ pred cacheEntriesInv(c *cache) :=
+//@   forall i int :: __trigger(c.filters[i].tables.indices) && (0 <= i && i < len(c.filters) ==> tidsInv(&c.filters[i].tables))
+
+//@ func (*cache).removeTable
+//@   serves C05 C15 C04
+//@   requires cacheEntriesInv(c) && table != nil
+//@   loop 1 invariant inv: cacheEntriesInv(c) && len(c.filters) == old(len(c.filters))
+//@   loop 1 invariant done: forall k int :: 0 <= k && k < __idx ==> !tidsHas(&c.filters[k].tables, table.id)
+//@   loop 1 invariant others: forall k int, j tableID :: 0 <= k && k < len(c.filters) && j != table.id ==> tidsHas(&c.filters[k].tables, j) == old(tidsHas(&c.filters[k].tables, j))
+//@   ensures  inv: cacheEntriesInv(c)
+//@   ensures  removed: forall k int :: 0 <= k && k < len(c.filters) ==> !tidsHas(&c.filters[k].tables, table.id)
+//@   ensures  others: forall k int, j tableID :: 0 <= k && k < len(c.filters) && j != table.id ==> tidsHas(&c.filters[k].tables, j) == old(tidsHas(&c.filters[k].tables, j))
